@@ -33,69 +33,80 @@ mod opt_cols__src0;
 mod cartesian__ser;
 mod same_gen__perm1;
 mod not_reorderable__par;
-mod two_inputs__mrt;
-mod two_inputs__runpar;
-mod two_inputs__strpar;
-mod ternary__perm2;
-mod bound_mix__pari;
-mod join_chain__ser;
-mod join_chain__u64;
-mod reach__to;
-mod lag_right__ser;
-mod lag_right__permpar;
-mod lag_left__topar;
-mod lag_mid__pari;
-mod lag_late_delta__ser;
-mod multi_head_rec__to;
-mod sp_dual__topar;
-mod sp_dual__redecl;
-mod sp_weighted__ser;
-mod longest_capped__to;
-mod set_reach__mrt;
-mod set_reach__runpar;
-mod cp__par;
-mod lex_lat__par;
-mod lat_multi_improve__ser;
-mod lat_input__ser;
-mod lat_input__src0;
-mod count_paths__ser;
-mod count_paths__src0;
-mod neg_basic__ser;
-mod neg_basic__src0;
-mod neg_basic__perm1;
-mod agg_minmaxsum__pari;
-mod agg_lattice__pari;
-mod neg_rec_after__pari;
-mod agg_empty__pari;
-mod agg_const_args__ser;
-mod disj__to;
-mod disj__srcto;
-mod disj__permpar;
-mod pat_args__ser;
-mod rep_expr__exp;
-mod neg_in_disj__par;
-mod mac_basic__topar;
-mod mac_basic__redecl;
-mod mac_capture__pari;
-mod mac_gensym_disj__ser;
-mod mac_disj__exp;
-mod rnd_core_03__ser;
-mod rnd_core_05__pari;
-mod rnd_core_08__par;
-mod rnd_core_11__ser;
-mod rnd_core_13__pari;
-mod rnd_core_16__par;
-mod rnd_core_19__ser;
-mod rnd_core_21__pari;
-mod rnd_core_24__par;
-mod rnd_core_27__ser;
-mod rnd_core_29__pari;
-mod rnd_agg_02__par;
-mod rnd_agg_05__ser;
-mod rnd_agg_07__pari;
-mod rnd_agg_10__par;
-mod rnd_agg_13__ser;
-mod rnd_agg_15__pari;
+mod pre_join_rec__ser;
+mod pre_join_rec__permpar;
+mod two_inputs__gen;
+mod two_inputs__srcpar;
+mod wild__ser;
+mod ternary__ren;
+mod bound_mix__perm1;
+mod join_chain__par;
+mod join_chain__strpar;
+mod reach__topar;
+mod lag_right__par;
+mod lag_right__str;
+mod lag_three__ser;
+mod lag_mid__perm1;
+mod lag_late_delta__par;
+mod multi_head_rec__topar;
+mod sp_dual__run;
+mod sp_dual__init;
+mod sp_weighted__par;
+mod longest_capped__topar;
+mod set_reach__gen;
+mod set_reach__srcpar;
+mod cp__pari;
+mod lex_lat__pari;
+mod lat_multi_improve__par;
+mod lat_pre_join__topar;
+mod lat_input__par;
+mod lat_input__src1;
+mod count_paths__par;
+mod count_paths__src1;
+mod neg_basic__par;
+mod neg_basic__src1;
+mod neg_basic__perm2;
+mod agg_depth__ser;
+mod agg_lattice__to;
+mod neg_rec_after__exp;
+mod agg_empty__to;
+mod agg_const_args__par;
+mod disj__par;
+mod disj__src1;
+mod disj__perm2;
+mod disj_nested__exp;
+mod rep_expr__par;
+mod multi_head_disj__exppar;
+mod mac_basic__pari;
+mod mac_basic__src2;
+mod mac_capture__ser;
+mod mac_nested__exp;
+mod mac_disj__par;
+mod rnd_core_02__par;
+mod rnd_core_05__ser;
+mod rnd_core_07__pari;
+mod rnd_core_10__par;
+mod rnd_core_13__ser;
+mod rnd_core_15__pari;
+mod rnd_core_18__par;
+mod rnd_core_21__ser;
+mod rnd_core_23__pari;
+mod rnd_core_26__par;
+mod rnd_core_29__ser;
+mod rnd_agg_01__pari;
+mod rnd_agg_04__par;
+mod rnd_agg_07__ser;
+mod rnd_agg_09__pari;
+mod rnd_agg_12__par;
+mod rnd_agg_15__ser;
+mod rnd_prec_02__ser;
+mod rnd_prec_03__to;
+mod rnd_prec_05__par;
+mod rnd_prec_06__topar;
+mod rnd_prec_08__pari;
+mod rnd_prea_02__pari;
+mod rnd_prea_05__par;
+mod rnd_prea_08__ser;
 
 fn lookup(name: &str) -> fn() -> Box<dyn Driven> {
    match name {
@@ -124,69 +135,80 @@ fn lookup(name: &str) -> fn() -> Box<dyn Driven> {
       "cartesian__ser" => cartesian__ser::make,
       "same_gen__perm1" => same_gen__perm1::make,
       "not_reorderable__par" => not_reorderable__par::make,
-      "two_inputs__mrt" => two_inputs__mrt::make,
-      "two_inputs__runpar" => two_inputs__runpar::make,
-      "two_inputs__strpar" => two_inputs__strpar::make,
-      "ternary__perm2" => ternary__perm2::make,
-      "bound_mix__pari" => bound_mix__pari::make,
-      "join_chain__ser" => join_chain__ser::make,
-      "join_chain__u64" => join_chain__u64::make,
-      "reach__to" => reach__to::make,
-      "lag_right__ser" => lag_right__ser::make,
-      "lag_right__permpar" => lag_right__permpar::make,
-      "lag_left__topar" => lag_left__topar::make,
-      "lag_mid__pari" => lag_mid__pari::make,
-      "lag_late_delta__ser" => lag_late_delta__ser::make,
-      "multi_head_rec__to" => multi_head_rec__to::make,
-      "sp_dual__topar" => sp_dual__topar::make,
-      "sp_dual__redecl" => sp_dual__redecl::make,
-      "sp_weighted__ser" => sp_weighted__ser::make,
-      "longest_capped__to" => longest_capped__to::make,
-      "set_reach__mrt" => set_reach__mrt::make,
-      "set_reach__runpar" => set_reach__runpar::make,
-      "cp__par" => cp__par::make,
-      "lex_lat__par" => lex_lat__par::make,
-      "lat_multi_improve__ser" => lat_multi_improve__ser::make,
-      "lat_input__ser" => lat_input__ser::make,
-      "lat_input__src0" => lat_input__src0::make,
-      "count_paths__ser" => count_paths__ser::make,
-      "count_paths__src0" => count_paths__src0::make,
-      "neg_basic__ser" => neg_basic__ser::make,
-      "neg_basic__src0" => neg_basic__src0::make,
-      "neg_basic__perm1" => neg_basic__perm1::make,
-      "agg_minmaxsum__pari" => agg_minmaxsum__pari::make,
-      "agg_lattice__pari" => agg_lattice__pari::make,
-      "neg_rec_after__pari" => neg_rec_after__pari::make,
-      "agg_empty__pari" => agg_empty__pari::make,
-      "agg_const_args__ser" => agg_const_args__ser::make,
-      "disj__to" => disj__to::make,
-      "disj__srcto" => disj__srcto::make,
-      "disj__permpar" => disj__permpar::make,
-      "pat_args__ser" => pat_args__ser::make,
-      "rep_expr__exp" => rep_expr__exp::make,
-      "neg_in_disj__par" => neg_in_disj__par::make,
-      "mac_basic__topar" => mac_basic__topar::make,
-      "mac_basic__redecl" => mac_basic__redecl::make,
-      "mac_capture__pari" => mac_capture__pari::make,
-      "mac_gensym_disj__ser" => mac_gensym_disj__ser::make,
-      "mac_disj__exp" => mac_disj__exp::make,
-      "rnd_core_03__ser" => rnd_core_03__ser::make,
-      "rnd_core_05__pari" => rnd_core_05__pari::make,
-      "rnd_core_08__par" => rnd_core_08__par::make,
-      "rnd_core_11__ser" => rnd_core_11__ser::make,
-      "rnd_core_13__pari" => rnd_core_13__pari::make,
-      "rnd_core_16__par" => rnd_core_16__par::make,
-      "rnd_core_19__ser" => rnd_core_19__ser::make,
-      "rnd_core_21__pari" => rnd_core_21__pari::make,
-      "rnd_core_24__par" => rnd_core_24__par::make,
-      "rnd_core_27__ser" => rnd_core_27__ser::make,
-      "rnd_core_29__pari" => rnd_core_29__pari::make,
-      "rnd_agg_02__par" => rnd_agg_02__par::make,
-      "rnd_agg_05__ser" => rnd_agg_05__ser::make,
-      "rnd_agg_07__pari" => rnd_agg_07__pari::make,
-      "rnd_agg_10__par" => rnd_agg_10__par::make,
-      "rnd_agg_13__ser" => rnd_agg_13__ser::make,
-      "rnd_agg_15__pari" => rnd_agg_15__pari::make,
+      "pre_join_rec__ser" => pre_join_rec__ser::make,
+      "pre_join_rec__permpar" => pre_join_rec__permpar::make,
+      "two_inputs__gen" => two_inputs__gen::make,
+      "two_inputs__srcpar" => two_inputs__srcpar::make,
+      "wild__ser" => wild__ser::make,
+      "ternary__ren" => ternary__ren::make,
+      "bound_mix__perm1" => bound_mix__perm1::make,
+      "join_chain__par" => join_chain__par::make,
+      "join_chain__strpar" => join_chain__strpar::make,
+      "reach__topar" => reach__topar::make,
+      "lag_right__par" => lag_right__par::make,
+      "lag_right__str" => lag_right__str::make,
+      "lag_three__ser" => lag_three__ser::make,
+      "lag_mid__perm1" => lag_mid__perm1::make,
+      "lag_late_delta__par" => lag_late_delta__par::make,
+      "multi_head_rec__topar" => multi_head_rec__topar::make,
+      "sp_dual__run" => sp_dual__run::make,
+      "sp_dual__init" => sp_dual__init::make,
+      "sp_weighted__par" => sp_weighted__par::make,
+      "longest_capped__topar" => longest_capped__topar::make,
+      "set_reach__gen" => set_reach__gen::make,
+      "set_reach__srcpar" => set_reach__srcpar::make,
+      "cp__pari" => cp__pari::make,
+      "lex_lat__pari" => lex_lat__pari::make,
+      "lat_multi_improve__par" => lat_multi_improve__par::make,
+      "lat_pre_join__topar" => lat_pre_join__topar::make,
+      "lat_input__par" => lat_input__par::make,
+      "lat_input__src1" => lat_input__src1::make,
+      "count_paths__par" => count_paths__par::make,
+      "count_paths__src1" => count_paths__src1::make,
+      "neg_basic__par" => neg_basic__par::make,
+      "neg_basic__src1" => neg_basic__src1::make,
+      "neg_basic__perm2" => neg_basic__perm2::make,
+      "agg_depth__ser" => agg_depth__ser::make,
+      "agg_lattice__to" => agg_lattice__to::make,
+      "neg_rec_after__exp" => neg_rec_after__exp::make,
+      "agg_empty__to" => agg_empty__to::make,
+      "agg_const_args__par" => agg_const_args__par::make,
+      "disj__par" => disj__par::make,
+      "disj__src1" => disj__src1::make,
+      "disj__perm2" => disj__perm2::make,
+      "disj_nested__exp" => disj_nested__exp::make,
+      "rep_expr__par" => rep_expr__par::make,
+      "multi_head_disj__exppar" => multi_head_disj__exppar::make,
+      "mac_basic__pari" => mac_basic__pari::make,
+      "mac_basic__src2" => mac_basic__src2::make,
+      "mac_capture__ser" => mac_capture__ser::make,
+      "mac_nested__exp" => mac_nested__exp::make,
+      "mac_disj__par" => mac_disj__par::make,
+      "rnd_core_02__par" => rnd_core_02__par::make,
+      "rnd_core_05__ser" => rnd_core_05__ser::make,
+      "rnd_core_07__pari" => rnd_core_07__pari::make,
+      "rnd_core_10__par" => rnd_core_10__par::make,
+      "rnd_core_13__ser" => rnd_core_13__ser::make,
+      "rnd_core_15__pari" => rnd_core_15__pari::make,
+      "rnd_core_18__par" => rnd_core_18__par::make,
+      "rnd_core_21__ser" => rnd_core_21__ser::make,
+      "rnd_core_23__pari" => rnd_core_23__pari::make,
+      "rnd_core_26__par" => rnd_core_26__par::make,
+      "rnd_core_29__ser" => rnd_core_29__ser::make,
+      "rnd_agg_01__pari" => rnd_agg_01__pari::make,
+      "rnd_agg_04__par" => rnd_agg_04__par::make,
+      "rnd_agg_07__ser" => rnd_agg_07__ser::make,
+      "rnd_agg_09__pari" => rnd_agg_09__pari::make,
+      "rnd_agg_12__par" => rnd_agg_12__par::make,
+      "rnd_agg_15__ser" => rnd_agg_15__ser::make,
+      "rnd_prec_02__ser" => rnd_prec_02__ser::make,
+      "rnd_prec_03__to" => rnd_prec_03__to::make,
+      "rnd_prec_05__par" => rnd_prec_05__par::make,
+      "rnd_prec_06__topar" => rnd_prec_06__topar::make,
+      "rnd_prec_08__pari" => rnd_prec_08__pari::make,
+      "rnd_prea_02__pari" => rnd_prea_02__pari::make,
+      "rnd_prea_05__par" => rnd_prea_05__par::make,
+      "rnd_prea_08__ser" => rnd_prea_08__ser::make,
       _ => panic!("no such program variant in this shard: {}", name),
    }
 }
